@@ -64,50 +64,48 @@ func c05Clock(c *Ctx, g *gameModel) { c05ClockRule(c, g, "R05-clock") }
 
 func c05ClockRule(c *Ctx, g *gameModel, rule string) {
 	r := c.R
-	fn := g.updNP
-	where := c.pos(fn.Pos())
-	in := newInterp(c.P)
-	if fn.Signature.Params().Len() != 2 {
-		r.Undecided(rule, "clock update signature", where, "", "expected (old int, m Move)")
-		return
-	}
+	where := c.pos(g.push.Pos())
+	// Decided on PushMove itself: the clock stored in the node just created, per move kind - the
+	// same whether the update sits in a helper or inline.
 	for _, kind := range []string{"Normal", "Push", "Jump", "EnPassant", "QueenSideCastle", "KingSideCastle", "Capture", "Promotion", "CapturePromotion"} {
-		old := absint.NewSym(types.Typ[types.Int], "old")
-		var args []absint.Value
-		for i := 0; i < 2; i++ {
-			if types.Identical(fn.Signature.Params().At(i).Type(), g.bm.moveT) {
-				args = append(args, g.bm.move(g.bm.kinds[kind], nil, nil))
-			} else {
-				args = append(args, old)
-			}
-		}
-		outs := in.Run(fn, args, absint.NewState())
 		cons := "half-move clock update|" + kind
-		want := "+(old,1)"
-		if pawnOrCapture[kind] {
-			want = "0"
+		paths, und := g.runPush(kind, "White")
+		if len(und) > 0 {
+			r.Undecided(rule, cons, where, kind, strings.Join(und, "; "))
+			continue
 		}
-		good, und := len(outs) > 0, ""
-		got := ""
-		for _, o := range outs {
-			if o.Panic || o.Undecided() {
-				und = fmt.Sprint(o.St.Notes)
+		good, got, n := true, "", 0
+		for _, pp := range paths {
+			if !pp.ok {
 				continue
 			}
-			got = vstrOf(o.Ret)
-			if got != want {
+			st := pp.o.St
+			curV, _ := finalOf(st, "&.current(b)")
+			ptr, isPtr := curV.(*absint.Ptr)
+			if !isPtr {
+				good, got = false, "no fresh node"
+				continue
+			}
+			newNP, _ := structField(st.Mem[ptr.C], "noprogress")
+			if newNP == nil {
+				good, got = false, "new node has no clock"
+				continue
+			}
+			n++
+			got = vstrOf(newNP)
+			if pawnOrCapture[kind] {
+				if got != "0" {
+					good = false
+				}
+			} else if got != "+(.noprogress(.current(b)),1)" && got != "+(1,.noprogress(.current(b)))" {
 				good = false
 			}
-		}
-		if und != "" {
-			r.Undecided(rule, cons, where, kind, und)
-			continue
 		}
 		what := "must count on (neither a pawn move nor a capture)"
 		if pawnOrCapture[kind] {
 			what = "must reset the clock (pawn move or capture)"
 		}
-		r.Check(good, rule, cons, where, kind, fmt.Sprintf("clock after a %s move is %s; a %s move %s", kind, got, kind, what))
+		r.Check(good && n > 0, rule, cons, where, kind, fmt.Sprintf("clock after a %s move is %s; a %s move %s", kind, got, kind, what))
 	}
 	// the first node's clock
 	newBoard := c.find("pkg/board", "", "NewBoard")
